@@ -134,6 +134,32 @@ func RunMutant(m Mutant, repo, verif string) MutantResult {
 		return res
 	}
 	res.Wall = rep.Wall
+	if m.Expect == "fail" {
+		// An obligation that merely ran out of the short limits of a mutant run (many mutants side by side) is decided
+		// again with the limits of the real check: a mutant counts as detected only by obligations that still fail then.
+		still := map[string]bool{}
+		for _, r := range rep.Results {
+			if r.Status != "undecided" || r.File == "" {
+				continue
+			}
+			st, _, _, _, _ := discharge(r.File, 10, true)
+			if st == "timeout" || st == "unknown" {
+				st, _, _, _, _ = dischargeWith(retrySolvers, r.File, 30, true)
+			}
+			if st == "unsat" {
+				still[r.Obl.Name] = true
+			}
+		}
+		if len(still) > 0 {
+			var keep []Violation
+			for _, v := range rep.Violations {
+				if !still[v.Obligation] {
+					keep = append(keep, v)
+				}
+			}
+			rep.Violations = keep
+		}
+	}
 	kf := LoadKnownFindings(filepath.Join(verif, "known-findings.jsonl"))
 	var viol []Violation
 	for _, v := range rep.Violations {
